@@ -38,6 +38,7 @@ truncated gzip: status 0, 58 records, when stderr is slow to take the fatal line
 					var readErrs = map[types.Object]bool{}
 					var closes []*ast.CallExpr
 					sends := map[types.Object]bool{}
+					handed := map[types.Object]bool{}
 					var fatals []*ast.IfStmt
 					var visit func(n ast.Node) bool
 					visit = func(n ast.Node) bool {
@@ -64,6 +65,16 @@ truncated gzip: status 0, 58 records, when stderr is slow to take the fatal line
 							if id, ok := x.Fun.(*ast.Ident); ok && id.Name == "close" && len(x.Args) == 1 {
 								if _, isB := info.Uses[id].(*types.Builtin); isB {
 									closes = append(closes, x)
+									return true
+								}
+							}
+							for _, a := range x.Args {
+								if t := info.TypeOf(a); t != nil {
+									if _, isChan := t.Underlying().(*types.Chan); isChan {
+										if o := rootObj(info, a); o != nil {
+											handed[o] = true
+										}
+									}
 								}
 							}
 						case *ast.IfStmt:
@@ -99,7 +110,11 @@ truncated gzip: status 0, 58 records, when stderr is slow to take the fatal line
 					}
 					for _, cl := range closes {
 						ch := rootObj(info, cl.Args[0])
-						if ch == nil || !sends[ch] {
+						if ch == nil {
+							continue
+						}
+						// the channel this body feeds: it sends on it, or hands it to a function (a helper that sends)
+						if !sends[ch] && !handed[ch] {
 							continue
 						}
 						if len(tests) == 0 {
